@@ -665,6 +665,7 @@ pub fn run(tier: Tier) -> i32 {
             ("label-on-a-nested-else-inside-a-skipped-arm-and-the-same-name-outside", ".if 0\n.if 1\nnop\ndup_q: .else\nnop\n.endif\n.endif\ndup_q: nop\nrjmp dup_q\n", Some(&[0x00, 0x00, 0xfe, 0xcf])),
             // a feature flag is another kind of name, told apart by letter case: it does not capture a label
             ("flag-that-differs-from-a-label-in-case-only", ".define UART_Q\n#define Tx_Q\nnop\nuart_q: nop\ntx_q: rjmp uart_q\n.dw uart_q, tx_q\n", Some(&[0x00, 0x00, 0x00, 0x00, 0xfe, 0xcf, 0x01, 0x00, 0x02, 0x00])),
+            ("label-in-the-body-used-in-other-letter-cases-inside-the-body", ".macro wait_q\nWait_Lq: dec r16\nnop\nbrne WAIT_LQ\nrjmp wait_lq\n.endm\nnop\nwait_q\nnop\n", Some(&[0x00, 0x00, 0x0a, 0x95, 0x00, 0x00, 0xe9, 0xf7, 0xfc, 0xcf, 0x00, 0x00])),
             ("label-in-the-body-used-outside", ".macro m_q\nin_l: nop\n.endm\nnop\nm_q\nrjmp in_l\n", Some(&[0x00, 0x00, 0x00, 0x00, 0xfe, 0xcf])),
         ];
         for (name, src, want) in progs.iter() {
